@@ -498,7 +498,7 @@ package task
 
 //@ func (*Executor).statusOnError
 //@   site fingerprint.NewSourcesChecker#0 requires arg0 == (t.Method != "" ? t.Method : e.Taskfile.Method)
-//@        && arg1 == e.TempDir.Fingerprint && arg2 == e.Dry                                           [C04,C05,C12]
+//@        && arg1 == e.TempDir.Fingerprint && arg2 == e.Dry                                           [C04,C05,C12,C01]
 
 //@ ghost var statusErr error scratch
 //@ func (*Executor).Status
@@ -738,7 +738,7 @@ package task
 //@   site templater.ReplaceVars#3 ghost lastRV := result
 //@   site templater.ReplaceVars#3 ghost rvDirty := false
 //@   site (*Vars).Merge#3 requires arg0 == new.Env && arg1 == lastRV && !rvDirty                               [C10]
-//@   site append requires fresh(arg1[0])                                                                       [C11,C18,C14]
+//@   site append requires fresh(arg1[0])                                                                       [C11,C18,C14,C06]
 // every command put into the compiled task (one per loop item, deferred, plain) keeps the attributes that
 // decide how its failure and its output are treated
 //@   site append#1 requires arg1[0].IgnoreError == cmd.IgnoreError && arg1[0].Silent == cmd.Silent && arg1[0].Defer == cmd.Defer   [C03,C02,C14]
@@ -792,6 +792,12 @@ package task
 // a file name, the output of a command) executed as a template before shellQuote ever sees it
 //@ func itemsFromFor
 //@   sweep                                                                                                      [C16]
+// KEY and ITEM of an iteration over a map belong to the SAME entry: the two lists are filled in one pass, entry by
+// entry (the order of the entries is the map's; two separate passes over a Go map do not see the same order)
+//@   site append#1 requires arg0 == keys && arg1[0] == k                                                        [C02,C09]
+//@   site append#2 requires arg0 == values && arg1[0] == v                                                      [C02,C09]
+//@   nosite maps.Keys                                                                                           [C02,C09]
+//@   nosite maps.Values                                                                                         [C02,C09]
 //@   nosite templater.Replace                                                                                   [C19]
 //@   nosite templater.ReplaceWithExtra                                                                          [C19]
 //@   nosite templater.ReplaceVar                                                                                [C19]
